@@ -35,6 +35,7 @@ def run(tier):
         'type is a violation; a dag file is accepted only if every edge goes from a lower to a higher vertex. gml/dot go through '
         'networkx/pydot and are executed concretely.')
     run.bounds = ['hand-written bipartite gml/dot texts: sides <=3x2, every edge set, 3 node declaration orders, either orientation of the first 2 edges', 'round trips: G(<=4), D(<=4), DG(<=3), B(<=3,<=3), 12-13 vertex skeleton graphs x all formats', 'readers: <=%d menu lines, with and without final newline' % (3 if tier == 'quick' else 4)]
+    run.bounds += ['CompleteBipartiteGraph sides <=4 in all four formats', 'write - change the graph (add/remove edge, grow) - write in any format - read back', 'dimacs/kthlist texts with 0-3 comment lines read, written in every format, read back']
     run.outside = ['arbitrary gml/dot text (networkx/pydot parsers are outside the repository)', 'texts outside the menus', 'dimacs lines that are neither c/p/e (behaviour unspecified; only "no crash" is required)']
     run.assumptions = ['the reference readers define "a graph consistent with the text"', 'CrossHair exhaustiveness accounting']
     T = 400 if tier == 'quick' else 1500
